@@ -53,6 +53,26 @@ def alias_file(a):
     return body
 
 
+def run_race_build(ctx):
+    """go build -race of the harness (cgo needed); returns the harness lines of the `race` tier or None."""
+    import os, check
+    exe = ctx.exe + ".race"
+    env = dict(check.GOENV, CGO_ENABLED="1")
+    try:
+        p = check.sh(["go", "build", "-race", "-tags", "verif", "-overlay", os.path.join(check.BUILD, "overlay.json"),
+                      "-o", exe, "./internal/verifharness"], cwd=check.REPO, env=env, timeout=900)
+    except Exception:
+        return None
+    if p.returncode != 0:
+        return None
+    saved = ctx.exe
+    ctx.exe = exe
+    try:
+        return ctx.run_harness("C08", ["race"], timeout=1800)
+    finally:
+        ctx.exe = saved
+
+
 def run(ctx):
     ctx.build_harness()
     lines = ctx.run_harness("C08", [ctx.tier], timeout=2400)
@@ -64,6 +84,20 @@ def run(ctx):
             ctx.failing_inputs.append(l)
         if l.get("kind") == "stat":
             ctx.stats = l["stats"]
+
+    # thorough tier: the same scenarios under the race detector, as search support only
+    if ctx.tier == "thorough":
+        race_lines = run_race_build(ctx)
+        if race_lines is None:
+            ctx.notes.append("go build -race unavailable here (needs cgo): race-detector runs skipped")
+        else:
+            rc = [l for l in race_lines if l.get("kind") == "case"]
+            cases += rc
+            for l in race_lines:
+                if l.get("kind") == "oracle":
+                    ctx.failing_inputs.append(l)
+            ctx.stats["race_detector_scenarios"] = len(rc)
+            ctx.stats["race_detector_reports"] = sum(1 for l in race_lines if l.get("kind") == "oracle" and "race" in l.get("what", ""))
 
     ctx.check_theorems("Properties/C08.v")
 
@@ -96,10 +130,24 @@ def run(ctx):
     body += "(* AST fact: call sites of os.Chdir / os.Setenv / os.Unsetenv / os.Clearenv in non-test code *)\n"
     body += "Definition global_write_sites : list string := %s.\n" % g.lst([g.string(s) for s in sites])
     body += "Lemma no_process_global_writes : global_write_sites = []. Proof. reflexivity. Qed.\n"
+    unlocked = astfacts[0].get("saver_unlocked", ["<missing>"]) if astfacts else ["<ast translator did not run>"]
+    locked = astfacts[0].get("saver_locked", []) if astfacts else []
+    shape = bool(astfacts and astfacts[0].get("saver_shape_recognised"))
+    body += "(* AST fact: methods of scenario.Saver touching the shared decompressionModel without Lock(); defer Unlock() *)\n"
+    body += "Definition saver_unlocked_methods : list string := %s.\n" % g.lst([g.string(s) for s in unlocked])
+    body += "Definition saver_locked_methods : list string := %s.\n" % g.lst([g.string(s) for s in locked])
+    body += "Definition saver_shape_recognised : bool := %s.\n" % g.b(shape)
     ok, so, se = ctx.coq_cases("Alias", body)
     ctx.oblige("astfact:no_process_global_writes", ok, "" if ok else "sites: %s" % sites)
     if not ok:
         ctx.broken.append("astfact:no_process_global_writes (process-global state written by non-test code: %s)" % sites)
+    body2 = g.HEADER + "From CremGen Require Import Alias.\nOpen Scope string_scope.\n"
+    body2 += "Lemma saver_lock_discipline : saver_unlocked_methods = [] /\\ saver_shape_recognised = true. Proof. split; reflexivity. Qed.\n"
+    ok2, so2, se2 = ctx.coq_cases("AliasSaver", body2) if ok else (False, "", "gen/Alias.v did not compile")
+    ctx.oblige("astfact:saver_lock_discipline", ok2, "" if ok2 else "unlocked methods touching decompressionModel: %s; shape recognised: %s" % (unlocked, shape))
+    if not ok2:
+        ctx.broken.append("astfact:saver_lock_discipline (scenario.Saver methods touching the shared decompressionModel without "
+                          "Lock(); defer Unlock(): %s; shape recognised: %s)" % (unlocked, shape))
 
     # ---- correspondence
     def runobs(r):
@@ -139,7 +187,8 @@ def run(ctx):
                 "distinct_nontrivial = distinct (family,R,c,N,T0,cf,observed order) with R >= 2",
         "exhaustive": False,
         "correspondence_shards": nshards,
-        "translator_facts": {"alias": alias_summary, "global_write_sites": sites, "allow_rules": ALLOW_RULES},
+        "translator_facts": {"alias": alias_summary, "global_write_sites": sites, "allow_rules": ALLOW_RULES,
+                             "saver_locked_methods": locked, "saver_unlocked_methods": unlocked},
     })
     ctx.samples = [{k: c[k] for k in ("fam", "R", "c", "N", "T0", "cf", "crashed", "maxInflight", "order", "runs")} for c in cases[4:6] + cases[-1:]]
     ctx.extra_trusted += [
